@@ -414,6 +414,10 @@ func (c *Ctx) atMost(h, a ssa.Value, depth int) bool {
 		}
 		return len(x.Edges) > 0
 	case *ssa.BinOp:
+		if x.Op == token.SUB {
+			// a - z <= a for z >= 0 (a >= 0 is the caller's premise)
+			return c.atMost(x.X, a, depth+1) && c.nonNegAt(x.Y, x.Block(), depth+1)
+		}
 		if x.Op != token.QUO {
 			return false
 		}
@@ -1721,6 +1725,10 @@ func ruleGather(c *Ctx, prop string) {
 					continue
 				}
 				it := c.term(ia.Index, 0)
+				if sl, ok := ia.X.(*ssa.Slice); ok && sl.Low != nil {
+					// a store through a re-sliced view list[low:][i] is a store at low+i
+					it = "(" + c.term(sl.Low, 0) + "+" + it + ")"
+				}
 				switch {
 				case it == pAxis:
 					nAxisSl++
